@@ -87,7 +87,7 @@ def run(prop, tier, replay=None):
     trace = os.path.join(w, "trace.ndjson")
     args = ["--scenarios", scn_path, "--cases", cases_path, "--out", trace, "--orders", 24 if thorough else 6]
     if not replay:
-        args += ["--random", 3000 if thorough else 300]
+        args += ["--random", 3000 if thorough else 300, "--directed", 1]
     run_driver("drv_getrecord", args, w)
     rep = validate_trace("getrecord", "GetRecordTrace", "GetRecordTrace.cfg", trace, w, timeout=3400, heap="6g")
     events = read_ndjson(trace)
